@@ -440,7 +440,9 @@ bufferevent_socket_connect(struct bufferevent *bev,
 		/* The connect succeeded already. How very BSD of it. */
 		result = 0;
 		bufev_p->connecting = 1;
-		bufferevent_trigger_nolock_(bev, EV_WRITE, BEV_OPT_DEFER_CALLBACKS);
+		/* let the write event's handler notice the finished connect
+		 * and report BEV_EVENT_CONNECTED first */
+		event_active(&bev->ev_write, EV_WRITE, 1);
 	} else {
 		/* The connect failed already (only ECONNREFUSED case). How very BSD of it. */
 		result = 0;
